@@ -394,7 +394,7 @@ def main_generic(prop, args, make_units, unit_fn, assumptions, bounds=None, budg
             u = res['unit']
             print('[%d/%d] %s %s L=%s %s %s int=%s unknown=%s div=%s' % (done, total, u['module'], u.get('options') or '', u['L'], res.get('outcomes', res.get('error', res.get('skipped'))),
                                                                         res.get('wall_s'), res.get('interesting_paths'), res.get('unknown'), res.get('divergences')), file=sys.stderr)
-    hard = (units[0].get('timeout', 30) * 2 + 60) if units else 60
+    hard = lambda u: u.get('timeout', 30) * 2 + 60
     for res in common.run_units(unit_fn, units, hard, progress, deadline):
         rep.add_unit(res)
     return rep.finish()
